@@ -12,6 +12,8 @@ var units = map[string]common.UnitFunc{
 	"c14stress": unitC14stress,
 	"c15": unitC15,
 	"c06": unitC06,
+	"c12": unitC12,
+	"c12silent": unitC12silent,
 	"c15ctl": unitC15ctl,
 }
 
